@@ -14,7 +14,7 @@ ids = [json.loads(l)["id"] for l in open(os.path.join(HERE, "properties.jsonl"))
 hooks = subprocess.run(["git", "-C", "/repo", "log", "--format=%h %s"], stdout=subprocess.PIPE, text=True).stdout.splitlines()
 hook_commits = [l.split()[0] for l in hooks if l.split(" ", 1)[1].startswith("verif hook")]
 
-ENGINE_OF = {"cluster": "clustersim", "logsim": "logsim", "smsim": "smsim", "mergesim": "mergesim", "scansim": "scansim"}
+ENGINE_OF = {"cluster": "clustersim", "logsim": "logsim", "smsim": "smsim", "mergesim": "mergesim", "scansim": "scansim", "snapsim": "snapsim"}
 checks = []
 for pid in ids:
     if pid not in PROPS:
@@ -57,6 +57,8 @@ m = {
          "kind_free_text": "E2: one BufferedRaftLog / LogStore / MetaStore under operation plans with crashes"},
         {"name": "smsim", "path": "/verif/sim (dsim smsim)", "serves_properties": [p for p in ids if p in PROPS and PROPS[p].get("engine") == "smsim"],
          "kind_free_text": "E3: one state machine / handler / watch stack under command plans with crashes"},
+        {"name": "snapsim", "path": "/verif/sim (dsim snapsim)", "serves_properties": [p for p in ids if p in PROPS and PROPS[p].get("engine") == "snapsim"],
+         "kind_free_text": "E3 variant: a real snapshot streamed with injected faults from one real state machine handler into another"},
         {"name": "scansim", "path": "/verif/sim (dsim scansim)", "serves_properties": [p for p in ids if p in PROPS and PROPS[p].get("engine") == "scansim"],
          "kind_free_text": "E3 variant: prefix scans interleaved with applies at guarded schedule points on the real File/RocksDB state machines"},
         {"name": "mergesim", "path": "/verif/sim (dsim mergesim)", "serves_properties": [p for p in ids if p in PROPS and PROPS[p].get("engine") == "mergesim"],
